@@ -103,9 +103,9 @@ func (f *Field) write(buf *bytes.Buffer, depth int) {
 	f.writeSels(buf, depth)
 }
 
-func (f *Field) sortArgs() (errors []error) {
+func (f *Field) sortArgs(ct Type) (errors []error) {
 	if 0 < len(f.Args) {
-		if ot, _ := f.ConType.(*Object); ot != nil {
+		if ot, _ := ct.(*Object); ot != nil {
 			if fd := ot.fields.get(f.Name); fd != nil {
 				// The arguments are looked up by name when resolving so the
 				// parsed argument list is left as it is, a reordered list
